@@ -82,7 +82,8 @@ theorem C07_single_request {v v' : View} {e e' : Env} {n k : Nat}
 theorem C07_request_suffix {v v' : View} {e e' : Env} {n k : Nat}
     (h : apply v e (.steal n k) = some (v', e')) :
     ∃ book, AList.lookup v.books n = some book ∧ 0 < k ∧ k + 2 ≤ book.length ∧
-      e'.outs = e.outs ++ [.steal n (book.drop (book.length - k))] := by
+      (if (e.flags.get n).broken then e' = e       -- the victim is already gone: nothing reaches the wire
+       else e'.outs = e.outs ++ [.steal n (book.drop (book.length - k))]) := by
   simp only [apply] at h
   cases hb : AList.lookup v.books n with
   | none => simp [hb] at h
@@ -95,9 +96,10 @@ theorem C07_request_suffix {v v' : View} {e e' : Env} {n k : Nat}
       · simp at h
       · split at h
         · simp at h
-        · simp at h
+        · simp only [Option.some.injEq, Prod.mk.injEq] at h
           obtain ⟨_, rfl⟩ := h
-          exact ⟨book, rfl, by omega, by omega, rfl⟩
+          refine ⟨book, rfl, by omega, by omega, ?_⟩
+          split <;> rfl
 
 /-- (c) after the reply is processed the book is the old book minus the reply, and the request is cleared -/
 theorem C07_book_after_reply {s s' : WorkSteal.State Nat} {e e' : Env} {n : Nat} {is : List Nat}
